@@ -843,6 +843,17 @@ fn gen_case(batch: &str, index: u64, seed: u64) -> Case {
             let queries = (0..3).map(|_| (0..p).map(|_| r.range(-3.0, 3.0)).collect()).collect();
             Case { model: "svr".into(), x, y, kernel, c: 100.0, tol: if batch == "svr-hard-tight" { 1e-4 } else { 1e-3 }, epoch: 0, eps: *pr.pick(&[0.0, 0.1]), f32m: false, queries, budget: 4_000_000_000, tape: TapeSpec::prng(tape_seed), kind: "svr-hard".into() }
         }
+        "svr-f32-resolution" => {
+            // single precision with targets so large that tol lies below the resolution of the gradient values
+            // (where the unrepaired SMO loop cycled forever, see known_findings.json)
+            let n = pr.usize_in(6, 20);
+            let p = pr.usize_in(1, 5);
+            let x: Vec<Vec<f64>> = (0..n).map(|_| (0..p).map(|_| 0.3 * r.range(-1.0, 1.0)).collect()).collect();
+            let yoff = *pr.pick(&[1000.0, -1000.0, 10_000.0, 100_000.0]);
+            let y: Vec<f64> = (0..n).map(|_| yoff + r.range(-1.5, 1.5)).collect();
+            let kernel = if pr.chance(0.7) { KSpec { kind: "rbf".into(), gamma: *pr.pick(&[0.5, 1.0]), degree: 0.0, coef0: 0.0 } } else { KSpec { kind: "linear".into(), gamma: 0.0, degree: 0.0, coef0: 0.0 } };
+            Case { model: "svr".into(), x, y, kernel, c: *pr.pick(&[10.0, 100.0]), tol: *pr.pick(&[1e-3, 1e-4]), epoch: 0, eps: *pr.pick(&[0.0, 0.1]), f32m: true, queries: vec![], budget: 500_000_000, tape: TapeSpec::prng(tape_seed), kind: "svr-f32-resolution".into() }
+        }
         "svr" | "svr-f32" => {
             let n = pr.usize_in(4, 40);
             let p = pr.usize_in(1, 5);
@@ -932,6 +943,7 @@ impl Property for C10 {
             Batch { name: "svr", count: if q { 12_000 } else { 600_000 }, simulated: false, exhaustive: false, note: "schedule-free ride-along: SVR draws nothing; linear / RBF / polynomial degree<=2, C<=10, n<=40; termination judged by state-cycle detection over the tick hook's state digests (step budget only as fallback)" },
             Batch { name: "svr-hard", count: if q { 48 } else { 1_500 }, simulated: false, exhaustive: false, note: "schedule-free: the slowly converging corner (C = 100, linear / quadratic / RBF kernels on features in [-3,3], n 20..60, tol 1e-3) with a 4e9-iteration fallback budget; few runs because each takes up to seconds" },
             Batch { name: "svr-hard-tight", count: if q { 12 } else { 600 }, simulated: false, exhaustive: false, note: "same corner at tol 1e-4, quadratic kernel, low noise (up to ~2e7 iterations per fit)" },
+            Batch { name: "svr-f32-resolution", count: if q { 1_500 } else { 60_000 }, simulated: false, exhaustive: false, note: "schedule-free: f32 fits whose tolerance lies below the floating-point resolution of the targets (|y| 1e3..1e5, tol 1e-3..1e-4) — the region of the repaired livelock" },
             Batch { name: "svr-f32", count: if q { 1_000 } else { 100_000 }, simulated: false, exhaustive: false, note: "schedule-free, single precision" },
             Batch { name: "kernels", count: if q { 6_000 } else { 600_000 }, simulated: false, exhaustive: false, note: "schedule-free: closed forms, symmetry, PSD of linear/RBF Gram matrices" },
             Batch { name: "kernels-f32", count: if q { 2_000 } else { 200_000 }, simulated: false, exhaustive: false, note: "schedule-free, single precision" },
